@@ -176,7 +176,8 @@ func runStress(c StressCase) *Violation {
 				return &Violation{Tag: "C05", Msg: fmt.Sprintf("reader %d saw a config (A=%d) that was never stored as a version", ri, p.c.A)}
 			}
 			if want.(uint64) != p.s {
-				return &Violation{Tag: "C05", Msg: fmt.Sprintf("reader %d: ViewVersion returned the config stored as version %d together with serial %d: config and serial do not belong together", ri, want.(uint64), p.s)}
+				// C06 too: a callback registered with that serial is told "newer than what you saw" relative to a version the registrant never saw
+				return &Violation{Tag: "C05,C06", Msg: fmt.Sprintf("reader %d: ViewVersion returned the config stored as version %d together with serial %d: config and serial do not belong together", ri, want.(uint64), p.s)}
 			}
 		}
 	}
@@ -222,5 +223,15 @@ func TestC04Stress(t *testing.T) {
 		Assumptions: []string{"which interleavings occur is up to the Go scheduler and the machine; a violated invariant is a real violation whether or not it reproduces"},
 		Gen:         genStress,
 		Run:         func(c StressCase) vrt.Verdict { return stressVerdict(c, "C04") },
+	})
+}
+
+func TestC06Stress(t *testing.T) {
+	vrt.Check(t, vrt.Prop[StressCase]{
+		ID: "C06", Name: "stress", NoJournal: true,
+		Rule:        stressRule + "oracle (what C06's ViewVersion+RegisterCallback pairs rest on): every (config, serial) pair obtained from one ViewVersion call was stored together - a registration with a serial that belongs to another version than the config the registrant saw shifts the skip and catch-up rules by one; non-trivial = >=2 readers and >=200 installs; distinct = distinct case JSON",
+		Assumptions: []string{"which interleavings occur is up to the Go scheduler and the machine; a violated invariant is a real violation whether or not it reproduces"},
+		Gen:         genStress,
+		Run:         func(c StressCase) vrt.Verdict { return stressVerdict(c, "C06") },
 	})
 }
